@@ -2,7 +2,7 @@
 Python source and the printer to Gallina.
 
 A term is JSON: strings are names.
- expr   ["load", n, [attrs]] | ["op", kind, [es]] | ["lambda", [ps], [defaults], body]
+ expr   ["load", n, [attrs]] | ["op", kind, [es]] | ["attr", e, [attrs]] | ["lambda", [ps], [defaults], body]
         | ["comp", kind, [gens], [elts]]            gen = [iter, target, [ifs]]
  target ["n", n] | ["a", n, [attrs]] | ["t", [targets]]
  param  [n, ann|None]
@@ -67,9 +67,15 @@ class Gen:
             return ["op", "call", [self.load(True)] + [self.expr(d + 1) for _ in range(r.randint(0, 2))]]
         if k < .85:
             return ["op", "add", [self.load(True), self.expr(d + 1)]]
-        if k < .93 and self.funcs:
+        if k < .90 and self.funcs:
             return self.lam(d, True)
-        return ["op", "sub", [self.load(True), self.expr(d + 1)]]
+        if k < .95:
+            return ["op", "sub", [self.load(True), self.expr(d + 1)]]
+        # attribute access / call on a call result: (f(x)).a.b, f(x)(y)
+        base = ["op", "call", [self.load(True)] + [self.expr(d + 1) for _ in range(r.randint(0, 1))]]
+        if r.random() < .7:
+            return ["attr", base, [r.choice(ATTRS) for _ in range(r.choice([1, 1, 2]))]]
+        return ["op", "call", [base, self.expr(d + 1)]]
 
     def lam(self, d, wrap):
         ps, ds = self.params_lambda()
@@ -87,15 +93,51 @@ class Gen:
             return self.vexp(d)
         if k < .66 and self.funcs:
             return self.lam(d, self.execd or r.random() < .5)
-        if k < .86 and self.comps:
+        if k < .80 and self.comps:
             return self.comp(d)
+        if k < .86:
+            return self.on_base(d)
         if k < .97:
             return ["op", r.choice(["tuple", "list"]), [self.expr(d + 1) for _ in range(r.randint(1, 2))]]
         return ["op", "const", []]
 
-    def comp(self, d):
+    def on_base(self, d):
+        """attribute access, method call or subscript whose base is a comprehension or a lambda (the names are
+        real attributes of list / dict / set / function objects, so the executed stream stays exception-free)"""
         r = self.r
-        kind = r.choice(["list", "list", "dict", "gen", "set"])
+        k = r.random()
+        if k < .3 and self.funcs:
+            # (lambda q: q.x).__name__ : a bare lambda that is never called may only read its own parameters
+            ps = []
+            for _ in range(r.randint(1, 2)):
+                q = r.choice(NAMES)
+                if q not in ps:
+                    ps.append(q)
+            body = ["load", r.choice(ps), [r.choice(ATTRS)] if r.random() < .5 else []]
+            if r.random() < .3:
+                body = ["op", "add", [body, ["load", r.choice(ps), []]]]
+            lam = ["lambda", ps, [], body]
+            if not self.execd and r.random() < .5:
+                lam = ["lambda", ps, [], self.expr(d + 1)]
+            return ["attr", lam, [r.choice(["__name__", "__qualname__"])]]
+        if not self.comps:
+            return self.load()
+        kind = r.choice(["list", "list", "dict", "set"])
+        c = self.comp(d, kind)
+        if kind == "list":
+            m = r.choice([("count", 1), ("copy", 0), ("sub", None)])
+        elif kind == "dict":
+            m = r.choice([("get", 1), ("items", 0), ("keys", 0), ("copy", 0)])
+        else:
+            m = r.choice([("copy", 0), ("union", 0)])
+        if m[1] is None:
+            return ["op", "sub", [c, ["op", "const0", []]]]          # [ ... ][0]
+        call = ["op", "call", [["attr", c, [m[0]]]] + [self.vexp(d + 1) for _ in range(m[1])]]
+        return call
+
+    def comp(self, d, kind=None):
+        r = self.r
+        kind = kind or r.choice(["list", "list", "dict", "gen", "set"])
         gens = []
         for gi in range(r.choice([1, 1, 1, 2])):
             tgt = self.target(comp=True)
@@ -155,10 +197,10 @@ class Gen:
                 used.add(p)
                 out.append([p, self.expr(2) if r.random() < .2 else None])
             return out
-        posonly = fresh(r.choice([0, 0, 0, 1]))
+        posonly = fresh(r.choice([0, 0, 0, 1, 1]))
         args = fresh(r.randint(0, 2))
         vararg = (fresh(1) or [None])[0] if r.random() < .12 else None
-        kwonly = fresh(r.choice([0, 0, 0, 1]))
+        kwonly = fresh(r.choice([0, 0, 1, 1, 2]))
         kwarg = (fresh(1) or [None])[0] if r.random() < .12 else None
         if self.execd:
             # *va is an (empty) tuple and **kwa an (empty) dict, not the inert value: never read them
@@ -168,9 +210,19 @@ class Gen:
                 kwarg[0] = "kwa"
         npos = len(posonly) + len(args)
         nd = min(npos, r.choice([0, 0, 1, 2]))
+        pos = [q[0] for q in posonly + args]
+
+        def dflt(earlier):
+            # a default is evaluated in the enclosing scope: let it mention an earlier parameter
+            if earlier and r.random() < .4:
+                return ["load", r.choice(earlier), [r.choice(ATTRS)] if r.random() < .3 else []]
+            return self.vexp(2)
+        defaults = [dflt(pos[:npos - nd + i]) for i in range(nd)]
+        kwd = []
+        for i, q in enumerate(kwonly):
+            kwd.append(dflt(pos + [z[0] for z in kwonly[:i]]) if r.random() < .6 else None)
         return {"posonly": posonly, "args": args, "vararg": vararg, "kwonly": kwonly, "kwarg": kwarg,
-                "defaults": [self.vexp(2) for _ in range(nd)],
-                "kw_defaults": [self.vexp(2) if r.random() < .5 else None for _ in kwonly]}
+                "defaults": defaults, "kw_defaults": kwd}
 
     def decos(self):
         r = self.r
@@ -325,6 +377,10 @@ class Render:
             g = "(EOp %s)" % self.L([c for _, c in ps])
             if kind == "const":
                 return "1", g
+            if kind == "const0":
+                return "0", g
+            if kind == "doc":
+                return '"""doc"""', g
             if kind == "call":
                 return "%s(%s)" % (self.atom(es[0], py[0]), ", ".join(py[1:])), g
             if kind == "add":
@@ -338,6 +394,9 @@ class Render:
             if kind == "starlist":
                 return "[*%s]" % py[0], g
             raise ValueError(kind)
+        if t == "attr":
+            bp, bg = self.expr(e[1])
+            return ".".join([self.atom(e[1], bp)] + e[2]), "(EAttr %s %s)" % (bg, self.Ns(e[2]))
         if t == "lambda":
             ps, ds, body = e[1], e[2], e[3]
             dps = [self.expr(x) for x in ds]
@@ -371,7 +430,7 @@ class Render:
 
     @staticmethod
     def atom(e, py):
-        return py if e[0] == "load" else "(%s)" % py
+        return py if e[0] in ("load", "attr") else "(%s)" % py
 
     def target(self, t):
         if t[0] == "n":
